@@ -70,48 +70,53 @@ fn nth_string(mut i: u64, len: usize) -> String {
     s
 }
 
-/// Renders every syntax/validation diagnostic of `text`; checks the header position.
+/// Renders every diagnostic the front end (through type inference) produces for `text`; every
+/// `--> at` header must name the 1-based model position of the range it belongs to: the first the
+/// diagnostic's own range start, the second (if any) the attached help's range start.
 pub fn check_rendered(ctx: &Ctx, text: &str) -> Result<u64, (String, String)> {
-    let diags = match catch(|| gen_::frontend_diagnostics(text)) {
-        Ok(d) => d,
-        Err(_) => {
-            ctx.class("partB.frontend-panic(C06's business)", 1);
-            return Ok(0);
-        }
-    };
-    let idx = LineIndex::new(text);
+    let res = gen_::frontend(text, true);
+    if let Some(why) = &res.stopped {
+        let k = why.split(':').next().unwrap_or("stopped").to_string();
+        ctx.class(&format!("partB.stopped.{k}"), 1);
+    }
     let mut n = 0;
-    for (start, rendered) in diags {
-        let Some(lines) = rendered else {
+    for d in res.diags {
+        let Some(lines) = d.lines else {
             ctx.class("partB.render-panic(C06's business)", 1);
             continue;
         };
-        if start as usize > text.len() {
-            ctx.class("partB.range-start-beyond-input(C23's business)", 1);
-            continue;
+        let headers: Vec<&String> = lines.iter().filter(|l| l.contains("--> at ")).collect();
+        let mut expected: Vec<(u32, &str)> = vec![(d.start, "diagnostic")];
+        if let Some(h) = d.help_start {
+            expected.push((h, "help"));
         }
-        let _ = &idx;
-        let want = model(text, start as usize);
-        let header = lines.iter().find(|l| l.contains("--> at "));
-        let Some(header) = header else {
+        if headers.len() != expected.len() {
             return Err((
-                "C25:render:no-header".into(),
-                format!("no `--> at` header in rendered diagnostic of {:?}: {:?}", text, lines),
-            ));
-        };
-        let expect_suffix = format!(":{}:{}", want.0 + 1, want.1 + 1);
-        if !header.trim_end().ends_with(&expect_suffix) {
-            return Err((
-                "C25:render:position".into(),
-                format!(
-                    "input {:?}: diagnostic range starts at byte {} = model line {} col {} (1-based {}), header is {:?}",
-                    text, start, want.0, want.1, expect_suffix, header
-                ),
+                "C25:render:header-count".into(),
+                format!("input {:?}: {} `--> at` headers for a diagnostic with {} ranges: {:?}", text, headers.len(), expected.len(), lines),
             ));
         }
-        n += 1;
-        if want.0 > 0 {
-            ctx.nontrivial(fnv(format!("B:{text}:{start}").as_bytes()));
+        for ((start, what), header) in expected.iter().zip(headers.iter()) {
+            if *start as usize > text.len() {
+                ctx.class("partB.range-start-beyond-input(C23's business)", 1);
+                continue;
+            }
+            let want = model(text, *start as usize);
+            let expect_suffix = format!(":{}:{}", want.0 + 1, want.1 + 1);
+            if !header.trim_end().ends_with(&expect_suffix) {
+                return Err((
+                    format!("C25:render:position:{what}:{}", d.phase),
+                    format!(
+                        "input {:?}: the {what} range of a {} diagnostic starts at byte {} = line {} col {} (1-based {}), header is {:?}",
+                        text, d.phase, start, want.0, want.1, expect_suffix, header
+                    ),
+                ));
+            }
+            n += 1;
+            ctx.class(&format!("partB.header.{what}.{}", d.phase), 1);
+            if want.0 > 0 {
+                ctx.nontrivial(fnv(format!("B:{text}:{start}").as_bytes()));
+            }
         }
     }
     Ok(n)
@@ -176,7 +181,9 @@ pub fn run(ctx: &Ctx) -> i32 {
 
     // Part B
     let n_inputs = if ctx.thorough() { 6000 } else { 1200 };
-    let inputs = gen_::mixed_inputs(ctx.args.seed, "c25", n_inputs, 400);
+    let mut inputs = gen_::mixed_inputs(ctx.args.seed, "c25", n_inputs, 400);
+    inputs.extend(gen_::corpus());
+    inputs.extend(gen_::type_error_inputs());
     let mut rendered_total = 0u64;
     for text in &inputs {
         match check_rendered(ctx, text) {
